@@ -8,6 +8,8 @@ import (
 	"net"
 	"os"
 	"path/filepath"
+	"runtime/debug"
+	"sync"
 	"time"
 
 	"github.com/ProtonMail/gluon"
@@ -70,6 +72,39 @@ type Server struct {
 	ctx    context.Context
 	cancel context.CancelFunc
 	closed bool
+
+	mu     sync.Mutex
+	panics []string
+	conns  []*imapc.Conn
+}
+
+// recorder is the panic handler installed into in-process servers: with gluon's default
+// handler a panic in any server goroutine kills the whole process (and with it every monitor),
+// so the harness records the panic instead and reports it as what it is.
+type recorder struct{ s *Server }
+
+func (p recorder) HandlePanic(v interface{}) {
+	if v == nil {
+		return
+	}
+
+	p.s.mu.Lock()
+	p.s.panics = append(p.s.panics, fmt.Sprintf("panic: %v\n%s", v, debug.Stack()))
+	conns := append([]*imapc.Conn{}, p.s.conns...)
+	p.s.mu.Unlock()
+
+	// The command that panicked never completes; unblock the clients right away.
+	for _, c := range conns {
+		_ = c.Close()
+	}
+}
+
+// Panics returns the panics recovered from server goroutines so far.
+func (s *Server) Panics() []string {
+	s.mu.Lock()
+	defer s.mu.Unlock()
+
+	return append([]string{}, s.panics...)
 }
 
 // DefaultUser is the user used when none is given.
@@ -119,8 +154,12 @@ func start(opts Options, old []*User) (*Server, error) {
 		gopts = append(gopts, gluon.WithDBClient(opts.DB))
 	}
 
+	s := &Server{Opts: opts}
+
 	if opts.PanicHandler != nil {
 		gopts = append(gopts, gluon.WithPanicHandler(opts.PanicHandler))
+	} else {
+		gopts = append(gopts, gluon.WithPanicHandler(recorder{s}))
 	}
 
 	if opts.DisableParallelism {
@@ -134,7 +173,7 @@ func start(opts Options, old []*User) (*Server, error) {
 
 	ctx, cancel := context.WithCancel(context.Background())
 
-	s := &Server{Opts: opts, G: g, ctx: ctx, cancel: cancel}
+	s.G, s.ctx, s.cancel = g, ctx, cancel
 
 	for i, spec := range opts.Users {
 		var conn *hconn.Connector
@@ -186,7 +225,14 @@ func start(opts Options, old []*User) (*Server, error) {
 
 // Dial opens a connection (greeting read).
 func (s *Server) Dial(name string) (*imapc.Conn, error) {
-	return imapc.Dial(s.Addr, name)
+	c, err := imapc.Dial(s.Addr, name)
+	if err == nil {
+		s.mu.Lock()
+		s.conns = append(s.conns, c)
+		s.mu.Unlock()
+	}
+
+	return c, err
 }
 
 // Login opens a connection and logs in as the first user (or the given one).
